@@ -1283,3 +1283,37 @@ m('C16', 'origin_and_widths: distance domain of the type of its inputs (F40)', M
   "            [center-abs(distance[0]), center+abs(distance[1])], dtype=float)",
   "            [center-abs(distance[0]), center+abs(distance[1])])",
   'C16.G9.survey_domain')
+
+# round 8
+m('C17', 'save: JSON with sorted keys', IO,
+  "json.dump(_dict_dearray_decomp(data), f, indent=json_indent)",
+  "json.dump(_dict_dearray_decomp(data), f, indent=json_indent, sort_keys=True)",
+  'C17.K3.h5order')
+m('C17', '_dict_flatten: sorted items', IO,
+  "for k, v in data.items() for item in expand(k, v)",
+  "for k, v in sorted(data.items()) for item in expand(k, v)",
+  'C17.K3.h5order')
+m('C13', 'standard_deviation setter keeps the caller array (F41)', SURV,
+  "                    data=np.array(standard_deviation))",
+  "                    data=standard_deviation)",
+  'C13.N3.own')
+m('C13', '_set_nf_re: broadcast view of the caller array', SURV,
+  "                        data=np.ones(self.shape)*value)",
+  "                        data=np.broadcast_to(value, self.shape))",
+  'C13.N3.own')
+n('C13', '_set_nf_re: broadcast then copy', SURV,
+  "                        data=np.ones(self.shape)*value)",
+  "                        data=np.broadcast_to(value, self.shape).copy())")
+m('C02', 'BaseMesh keeps float32 widths', MESHES,
+  "        self.h = [np.array(h[0], dtype=float),",
+  "        self.h = [np.asarray(h[0]),",
+  'C02.O4.vol')
+m('C02', 'VolumeModel: displacement term from |f|', MODELS,
+  "smu = sfield.sval*",
+  "smu = 2j*np.pi*sfield.frequency*",
+  'C02.O4.eta')
+m('C04', '_get_restriction_weights: shortcut wrapper', SOLVER,
+  "    # x-directed weights.\n    if sc_dir not in [1, 5, 6]:\n        wx = core.restrict_weights(",
+  "    def _w(*a):\n        if np.allclose(a[4], a[0][1::2]):\n            return np.ones(3), np.ones(3), np.ones(3)\n        return core.restrict_weights(*a)\n\n    # x-directed weights.\n    if sc_dir not in [1, 5, 6]:\n        wx = _w(",
+  'C04.')
+
